@@ -1,4 +1,5 @@
 // GENERATED FILE — assembled by /verif/vlib/build.py from /repo's working tree; do not edit.
+#![feature(allocator_api)]
 #![allow(unused_imports, dead_code, unused_variables, unused_mut, unused_assignments, unreachable_code, private_interfaces, non_snake_case)]
 use vstd::prelude::*;
 use std::ops::{Deref, DerefMut};
